@@ -8,10 +8,13 @@ SPEC = {
     "oracles": [
         # recorded histories of the real async.QueuedChannel, judged in Lean (judge-c19-queue replays every
         # history on the transition system), + goroutine-leak probes (finds #13a)
-        {"name": "c19queue", "quick_args": ["-n", "400"], "thorough_args": ["-n", "20000"], "timeout": 1500},
+        {"name": "c19queue", "quick_args": ["-n", "400"], "thorough_args": ["-n", "100000"], "timeout": 2500},
         # the teardown protocol on the real server: RemoveUser / Close return, no goroutine left; the
         # ctx-cancel scenario reproduces the hang of teardown_ctxcancel_hang_witness
-        {"name": "c19teardown", "quick_args": ["-n", "6"], "thorough_args": ["-n", "150"], "timeout": 3000},
+        {"name": "c19teardown", "quick_args": ["-n", "6"], "thorough_args": ["-n", "400"], "timeout": 3000},
+        # SEARCH ONLY, report-only, thorough tier: the same scenarios + the snapshot-race scenario under a
+        # `go build -race` harness; distinct data races are listed in the evidence (input_distribution), never flagged
+        {"name": "c19race", "quick_args": ["-skip"], "thorough_args": ["-hist", "5000", "-teardown", "40", "-snaprace", "15"], "timeout": 3000},
     ],
     "rule": "evaluations = recorded QueuedChannel histories + termination probes + whole-server teardown scenarios; "
             "non-trivial = the Lean judge replayed a history with >0 items on the model (interleaved producers / discard / plain FIFO), "
@@ -42,7 +45,9 @@ SPEC = {
         "QueuedChannel.items accessed only under their lock), facts_lockorder_no_deadlock. SEARCH ONLY (no proof): "
         "data-race freedom of fields no lock guards (State.snap read by foreign goroutines, #13b), scheduler-dependent "
         "liveness, whole-server behaviour: oracles c19queue (histories of the real queue must be model runs; leak "
-        "probes) and c19teardown (RemoveUser/Close return, goroutine count returns to baseline), plus the lead's "
-        "TCP stress harness under -race."
+        "probes), c19teardown (RemoveUser/Close return, goroutine count returns to baseline) and, thorough tier, c19race "
+        "(the same scenarios and a snapshot-race scenario under `go build -race`; data races are listed in "
+        "input_distribution, report-only: today it shows #13b, snapMsgList.has read by removeState of another "
+        "session while the owner's flush removes from the same map), plus the lead's TCP stress harness."
     ),
 }
